@@ -47,6 +47,25 @@ def first_projection_converges(A0, vs, max_proj, eps=0.01):
   return None
 
 
+def projection_errors(A0, vs, n):
+  """the relative budget violation (fDC2 - t) / t after each of the first n steps of the documented alternating projection"""
+  d = A0.shape[0]
+  A = A0.copy()
+  w = np.einsum('ij,ik->jk', vs, vs).ravel()
+  t = w.dot(A.ravel()) / 100.0
+  wn = np.linalg.norm(w)
+  w1, t1 = w / wn, t / wn
+  out = []
+  for it in range(n):
+    x0 = A.ravel()
+    if w.dot(x0) > t:
+      A = (x0 + (t1 - w1.dot(x0)) * w1).reshape(d, d)
+    l, V = np.linalg.eigh((A + A.T) / 2)
+    A = np.dot(V * np.maximum(0, l[None, :]), V.T)
+    out.append((w.dot(A.ravel()) - t) / t)
+  return out
+
+
 def similar_diffs(name, kw, data):
   X = data['X']
   if name == 'MMC':
@@ -171,6 +190,13 @@ def run(ctx):
       ctx.count('small_max_proj', 0, skipped=1)
       continue
     mp = int(np.ceil(need / 0.9)) + int(rng.integers(1, 4))
+    if i % 2 == 0:
+      # exactly the number of steps the first projection needs (the smallest max_proj of the property's hypothesis), when the
+      # exit test is decided with a margin of 1e-4 at that step and at the one before (so rounding cannot move it)
+      errs = projection_errors(np.array(A0, dtype=float), vs, need)
+      if errs[need - 1] < 0.01 * (1 - 1e-4) and (need == 1 or errs[need - 2] > 0.01 * (1 + 1e-4)):
+        mp = need
+        ctx.hist('small_max_proj.exact', True)
     kw = dict(max_iter=int(rng.choice([5, 30, 100])), max_proj=mp, init=A0 if initk == 'array' else 'identity', tol=1e-3)
     opt = {k: (v if not isinstance(v, np.ndarray) else 'ndarray') for k, v in kw.items()}
     inp = dict(estimator='MMC', params=opt, pairs=pairs.tolist(), y=yy.tolist(), init=np.asarray(A0).tolist(),
@@ -186,6 +212,34 @@ def run(ctx):
     M = e.get_mahalanobis_matrix()
     terms.append("(c14_full %s %s %s)" % (gmat(M, qdy), gmat(np.array(A0, dtype=float), qdy), gmat(vs, qdy)))
     recs.append(dict(kind='full', inp=inp, M=M, A0=np.array(A0, dtype=float), vs=vs))
+  # ---- many constraints: more than 10000 similar pairs (a count that is no multiple of a round block size), listed group by group;
+  # the budget is that of ALL of them
+  for npos_big in ((10300,) if not thorough else (10300, 21200)):
+    rb = np.random.default_rng(ctx.seed + 909)
+    d = 3
+    scale = np.repeat([0.5, 1.0, 3.0], [npos_big - 2 * (npos_big // 3), npos_big // 3, npos_big // 3])[:, None]
+    base = rb.standard_normal((npos_big, d)) * 3
+    pos = np.stack([base, base + rb.standard_normal((npos_big, d)) * scale], axis=1)
+    neg = np.stack([rb.standard_normal((400, d)) * 3, rb.standard_normal((400, d)) * 3 + 4], axis=1)
+    pairs = np.vstack([pos, neg])
+    yy = np.r_[np.ones(npos_big, dtype=int), -np.ones(400, dtype=int)]
+    ctx.count('many_constraints', 1)
+    inp = dict(estimator='MMC', n_similar=npos_big, n_dissimilar=400, generator='default_rng(seed + 909): similar pairs listed in three groups of spread 0.5 / 1 / 3', max_iter=5)
+    try:
+      with warnings.catch_warnings():
+        warnings.simplefilter('ignore')
+        e = MMC(max_iter=5).fit(pairs, yy)
+    except Exception as ex:
+      ctx.fail_input('fit_runs', 'MMC on %d similar pairs raises %s' % (npos_big, type(ex).__name__), inp, observed=str(ex)[:200])
+      continue
+    Mb = e.get_mahalanobis_matrix()
+    vb = pos[:, 0] - pos[:, 1]
+    fSb = float(np.einsum('ij,jk,ik->', vb, Mb, vb))
+    tb = float(np.einsum('ij,ij->', vb, vb)) / 100
+    if first_projection_converges(np.eye(d), vb, 10000) is None:
+      ctx.count('many_constraints', 0, skipped=1)
+    elif np.linalg.eigvalsh((Mb + Mb.T) / 2).min() < -1e-9 * np.abs(Mb).max() or fSb > 1.01 * tb * (1 + 1e-9):
+      ctx.fail_input('budget', 'similarity budget exceeded over the full list of %d similar pairs: sum_S d^2 = %.6g t' % (npos_big, fSb / tb), inp, observed=fSb / tb)
   # ---- diagonal variant started from a matrix that is not diagonal (covariance / random / array): the learned matrix is
   # diagonal with non-negative entries whatever the initial matrix held; a NaN is reported by ValueError, nothing else is raised
   from metric_learn.exceptions import NonPSDError
